@@ -81,7 +81,7 @@ Definition wf_event (e : Event) : Prop := match e with EvUse _ _ p _ => p <> [] 
 Definition found_at (ty : DefinitionType) (d : Def) (file line col : nat) : bool :=
   match ty with
   | DtFilename _ => contains_usage d file line col
-  | DtSymbol _ => contains d file line col
+  | _ => contains d file line col
   end.
 
 (* what a pass recorded at a position *)
